@@ -8,7 +8,7 @@ LEAN_MODULES = ["LunaVerif.Props.C56", "LunaVerif.Props.C56Stream", "LunaVerif.P
                 "LunaVerif.Lemmas.C56StreamAny", "LunaVerif.Props.C56Uart", "LunaVerif.Props.C56Cdc",
                 "LunaVerif.Props.C56SpiBits", "LunaVerif.Lemmas.C56UartRank", "LunaVerif.Props.C56UartLive",
                 "LunaVerif.Props.C56UartMulti", "LunaVerif.Props.C56SpiProgress", "LunaVerif.Props.C56StreamLive",
-                "LunaVerif.Props.C56UartChain"]
+                "LunaVerif.Props.C56UartChain", "LunaVerif.Props.C56SpiPins"]
 DRIVER = "Driver/C56.lean"
 REQUIRED_THEOREMS = ["captures_depth_consecutive_samples", "readback_nth", "trigger_during_capture_ignored",
                      "pretrigger_delay", "stream_readout_exact", "stream_readout_complete",
@@ -21,7 +21,7 @@ REQUIRED_THEOREMS = ["captures_depth_consecutive_samples", "readback_nth", "trig
                      "spi_readout_progress", "spi_readout_covers", "sending_within", "stream_readout_total",
                      "cdc_readout_counted", "cdc_readout_fair", "uart_capture_chain", "uart_capture_chain_quiet",
                      "uart_capture_chain_decoded", "uart_readout_duration_any", "uart_readout_within_any",
-                     "bounded_step", "uart_capture_chain_total"]
+                     "bounded_step", "uart_capture_chain_total", "track_bits", "spi_readout_pins"]
 RULE = ("cases = (sample_depth in {1,2,5,32,100} (+3,4,7,8,16,33 thorough), samples_pretrigger 0..3, domain sync/usb, "
         "three captured signals of 1+8+5 bits) x pattern: triggers sparse / held high / bursts / random incl. during "
         "capture; inputs random every cycle or a counter; captured_sample_number sweeps and random reads, also while "
@@ -74,7 +74,8 @@ ASSUMPTIONS = ["sample_depth >= 1", "captured_sample_number < sample_depth (addr
                "cycles after the hand-over cycle (at any times); spi_readout_progress / spi_readout_covers: the hypotheses "
                "of spi_readout_bits; the only pace-setting quantity is the number of sampling edges of sck the controller "
                "has produced inside the chip-select window (counted on the pin from the level sck had in the last cycle "
-               "before the window); cdc_readout_counted: FIFO empty at the start, Legal, and the consumer has received "
+               "before the window); spi_readout_pins: moreover sck rests before the window at the level it has after a "
+               "sampling edge (the first edge in the window is an output edge), MSB first; cdc_readout_counted: FIFO empty at the start, Legal, and the consumer has received "
                "depth words; cdc_readout_fair: FIFO empty at the start, Legal, w_rdy high in at least 2*depth - "
                "data_valid capture-domain cycles after the hand-over cycle",
                "cdc_readout_in_order (StreamILA with o_domain != domain): Amaranth's AsyncFIFOBuffered behaves as an "
@@ -92,7 +93,9 @@ PARTIAL = ("the IntegratedLogicAnalyzer core and all three read-out wrappers are
            "of the history; the "
            "StreamILA read-out is complete once the consumer has offered 2*depth - data_valid ready cycles "
            "(stream_readout_total); the SyncSerialILA read-out has completed floor(E / bits_per_word) words after E "
-           "sampling edges of the controller's sck (spi_readout_progress). What remains: (1) the clock-domain crossing is "
+           "sampling edges of the controller's sck (spi_readout_progress), and the controller's sampling edge number E "
+           "reads bit bits_per_word - 1 - E mod bits_per_word of recorded sample floor(E / bits_per_word) "
+           "(spi_readout_pins: on the pins alone, every clock waveform whose first edge in the window is an output edge). What remains: (1) the clock-domain crossing is "
            "proved over an abstract in-order-queue model of Amaranth's AsyncFIFOBuffered (library code). Assumed of "
            "the library FIFO, for every interleaving of the two clocks: (F1) the sequence of words read (r_en & r_rdy at a "
            "read-clock edge, r_data of that cycle) is at every moment a prefix of the sequence of words written (w_en & "
